@@ -71,8 +71,22 @@ def check_storage(prop, tier, seed):
                                   notes=(rep.get("mismatch_notes") or [])[:2]))
         cov["samples"] = [json.loads(x) for x in (rep.get("samples") or [])[:2]]
         log("storerun: %d sequences x 6 engine configurations, %d runs agree with the contract, %d mismatch" % (rep.get("behaviours", 0), rep.get("agreed", 0), rep.get("obs_mismatch", 0)))
-        ntr, v = validate_all(work, traces, T_MON[prop], module="TraceStorage.tla", chunks=8)
+        # "from one consistent snapshot" at a scale where an engine needs more than one fetch: 700 keys, a batch committed
+        # after the iterator was opened
+        d = work.sub("iterbulk")
+        tr = os.path.join(d, "iterbulk.ndjson"); rp = os.path.join(d, "iterbulk.json")
+        rc, out = run([binp, "iterbulk", "-out", tr, "-report", rp, "-engine", engines, "-n", "700" if quick else "3000"], env=GOENV, timeout=600)
+        if rc != 0 or not os.path.exists(rp):
+            raise Undecided("iterbulk failed (rc=%s): %s" % (rc, (out or "")[-800:]))
+        traces.append(tr)
+        cov["replay"].append(dict(what="iterators over 700+ keys with a batch committed after they were opened, forward and backward, on every adapter",
+                                  runs=json.load(open(rp)).get("behaviours", 0)))
+        ntr, v = validate_all(work, traces, T_MON[prop] + ["M_IterSnapshotBulk"], module="TraceStorage.tla", chunks=8)
         cov["traces_validated_against_impl"] = ntr
+        if not v:
+            # parallel conditional batches on the bare adapters (StorageRace.tla)
+            import fam_write
+            v = fam_write.race_part(work, binp, cov, quick, seed)
         if v:
             violations += 1
             report_violation(prop, seed, v)
